@@ -11,10 +11,11 @@ class C07(Prop):
     assumptions = ['accept/reject outcomes are steered through the log-likelihoods handed to iterate() (huge for an acceptance, -inf or '
                    'tiny for a rejection); the event fed to the model is the outcome observed on the real algorithm',
                    'sources and log-likelihoods are opaque tokens in the model; the harness maps recorded tensor columns back to proposals']
-    unproved = ['convergence of a finite chain to the posterior (invariance of the posterior under the sampler\'s kernel IS proved in Props/C07Stationary from the detailed balance of C05): tested by comparing '
+    unproved = ['convergence of a finite chain to the posterior (invariance of the posterior under the sampler\'s kernel IS proved in Props/C07Stationary / C07TransD from the detailed balance of C05, and one step of the model has that kernel\'s law: Props/C07Step): tested by comparing '
                 'expectations over a real chain (six-station polarity data, real forward task) with likelihood-weighted random sampling of 4e5 '
                 'sources, in units of the combined Monte Carlo error (batch means): one 3000-entry double-couple chain in the quick tier, 20000-entry '
-                'double-couple and full-tensor chains in the thorough tier']
+                'double-couple and full-tensor chains in the thorough tier; trans-dimensional chains through the front-end task (5000 entries quick; 20000-60000, five runs, '
+                'pooled, thorough): share of double-couple entries against the posterior model probability from 2e5 + 2e5 likelihood-weighted random samples']
     rule = ('every accept/reject history up to length 7 (thorough: 9) for small learning lengths / windows / chain lengths, random histories up '
             'to length 400, single-try double-couple / full-tensor / trans-dimensional chains and multiple-try iterations with 2..4 '
             'candidates, random and grid initialisation; non-trivial = the chain records at least three entries')
@@ -302,6 +303,81 @@ class C07(Prop):
         return {'algorithm': algname, 'requested_dc': want_dc, 'algorithm_dc_flag': bool(getattr(I.algorithm, 'dc', None)), 'entries': int(M.shape[1]),
                 'entries_not_double_couple': non_dc}
 
+    def _prior_mass(self):
+        """Total mass of the sampling prior density of the full-tensor model over the source-type parameters (gamma, delta) of the
+        Tape parameterisation (strike, dip cosine and slip are uniform and cancel): Gauss-Legendre quadrature, 200 x 400 nodes."""
+        np, mc = self.np, self.mc
+        xg, wg = np.polynomial.legendre.leggauss(200)
+        xd, wd = np.polynomial.legendre.leggauss(400)
+        g = xg * math.pi / 6
+        d = xd * math.pi / 2
+        tot = 0.0
+        for gi, wi in zip(g, wg):
+            vals = np.array([float(mc.uniform_prior({'gamma': float(gi), 'delta': float(dj), 'kappa': 1.0, 'h': 0.5, 'sigma': 0.1}, dc=False)) for dj in d])
+            tot += wi * math.pi / 6 * float(np.sum(wd * vals)) * math.pi / 2
+        return tot
+
+    def _transd_run(self, chain_length, seed, predecessor, mass=1.0, own=None):
+        """A trans-dimensional chain through the front-end task against the posterior double-couple probability obtained from
+        likelihood-weighted random sampling of the two models (equal model priors).  `predecessor` keyword arguments, when given,
+        are those of another trans-dimensional chain run earlier in the same process (state must not leak between chain objects)."""
+        import types
+        np = self.np
+        from MTfit import inversion as inv
+        from MTfit.algorithms import base
+        from MTfit.probability import probability as pr
+        nogc = types.SimpleNamespace(collect=lambda *a, **k: 0)
+        inv.gc = nogc
+        pr.gc = nogc
+        rs = np.random.RandomState(seed)
+        n = 5
+        st = {'Name': ['S%d' % i for i in range(n)], 'Azimuth': np.matrix(rs.uniform(0, 360, n)).T, 'TakeOffAngle': np.matrix(rs.uniform(20, 160, n)).T}
+        mtrue = np.array([1, -1, 0, 0.2, 0.1, 0.3])
+        mtrue = mtrue / np.linalg.norm(mtrue)
+        a = np.asarray(inv.station_angles(st, 'P'))
+        data = {'PPolarity': {'Stations': st, 'Measured': np.matrix(np.sign(a.dot(mtrue))).T, 'Error': np.matrix(0.25 * np.ones((n, 1)))}}
+        a_pol, err_pol, ipp = inv.polarity_matrix(data)
+
+        def like(mts):
+            r = inv.ForwardTask(mts, a_pol, err_pol, False, False, False, False, False, False, False, False, ipp, return_zero=True)()
+            return np.exp(np.asarray(r['ln_pdf']._ln_pdf, dtype=float).flatten())
+        np.random.seed(seed)
+        nref = 200000
+        ldc = like(np.asarray(base.BaseAlgorithm(number_samples=nref, dc=True).random_sample()))
+        lmt = like(np.asarray(base.BaseAlgorithm(number_samples=nref, dc=False).random_sample()))
+        zdc, zmt = ldc.mean(), lmt.mean()
+        ref_unit = float(zdc / (zdc + zmt))
+        zmt = mass * zmt          # the chain's full-tensor model carries the coded prior density, whose total mass is `mass`
+        ref = zdc / (zdc + zmt)
+        ref_se = math.sqrt((ldc.std() / math.sqrt(nref) * zmt) ** 2 + (mass * lmt.std() / math.sqrt(nref) * zdc) ** 2) / (zdc + zmt) ** 2
+        base_kw = dict(learning_length=200, acceptance_rate_window=50, dc=False, number_samples=1000, trans_dimensional=True,
+                       dimension_jump_prob=0.3, initial_sample='random')
+        if predecessor:
+            kw0 = dict(base_kw, chain_length=50)
+            kw0.update(predecessor)
+            inv.McMCForwardTask(kw0, a_pol, err_pol, False, False, False, False, False, False, False, ipp)()
+        out = inv.McMCForwardTask(dict(base_kw, chain_length=chain_length, **(own or {})), a_pol, err_pol, False, False, False, False, False, False, False,
+                                  ipp)()['algorithm_output_data']
+        M = np.asarray(out['moment_tensor_space'], dtype=float)
+        r2 = 1 / math.sqrt(2)
+        m33 = np.zeros((M.shape[1], 3, 3))
+        m33[:, 0, 0], m33[:, 1, 1], m33[:, 2, 2] = M[0], M[1], M[2]
+        m33[:, 0, 1] = m33[:, 1, 0] = r2 * M[3]
+        m33[:, 0, 2] = m33[:, 2, 0] = r2 * M[4]
+        m33[:, 1, 2] = m33[:, 2, 1] = r2 * M[5]
+        w = np.linalg.eigvalsh(m33)
+        scale = np.maximum(np.abs(w).max(1), 1e-300)
+        d = ((np.abs(w[:, 1]) < 1e-7 * scale) & (np.abs(w.sum(1)) < 1e-7 * scale)).astype(float)
+        nb = 20
+        L = len(d) // nb
+        bm = d[:nb * L].reshape(nb, L).mean(1)
+        share, se = float(d.mean()), float(bm.std(ddof=1) / math.sqrt(nb))
+        z = (share - ref) / math.sqrt(se ** 2 + ref_se ** 2) if se + ref_se > 0 else 0.0
+        return {'chain_length': chain_length, 'seed': seed, 'predecessor': predecessor or None, 'own_widths': own or None, 'entries': int(M.shape[1]),
+                'reported_pDC': int(out['pDC']), 'double_couple_entries': int(d.sum()), 'share': share, 'share_se': se,
+                'reference': float(ref), 'reference_se': float(ref_se), 'z': float(z), 'prior_mass_used': mass,
+                'reference_with_unit_mass_prior': ref_unit, 'z_with_unit_mass_prior': float((share - ref_unit) / math.sqrt(se ** 2 + ref_se ** 2))}
+
     def extra(self, rng, tier):
         fe = []
         fe_fails = []
@@ -315,6 +391,43 @@ class C07(Prop):
                                         key='front-end-dc'))
         cov0, fails0 = self._extra_rest(rng, tier)
         cov0['front_end_constraint'] = fe
+        td = []
+        wide = {'dc_sigma_g': 1.0, 'dc_sigma_d': 1.0}
+        # the model prior dc_prior means what it says only if the sampling prior density of the full-tensor model has total mass one
+        mass = self._prior_mass()
+        cov0['transd_full_tensor_prior_mass'] = mass
+        if abs(mass - 1.0) > 2e-3:
+            fe_fails.append(Failure('property', {'kind': 'transd-prior-mass', 'mass': mass},
+                                    'trans-dimensional chain: the sampling prior density of the full-tensor model (uniform_prior) integrates to %.6f over the '
+                                    'source-type parameters, not 1: the double-couple : full-tensor odds of the recorded chain are those of likelihood-weighted '
+                                    'random sampling divided by that factor' % mass, key='transd-prior-mass-%.4f' % mass))
+        narrow = {'dc_sigma_g': 0.05, 'dc_sigma_d': 0.05}
+        # (chain length, seed, widths of the balancing draw of an earlier chain of the process, widths of the chain under test): other chain
+        # objects with the default widths have been built in this process before (the history cases above)
+        for n, seed, pred, own in ([(5000, 31, narrow, wide)] if tier == 'quick' else [(20000, 31, narrow, wide), (20000, 32, None, None), (20000, 33, wide, narrow),
+                                                                                       (60000, 35, None, None), (60000, 36, wide, None)]):
+            r = self._transd_run(n, seed, pred, mass, own)
+            td.append(r)
+            if r['reported_pDC'] != r['double_couple_entries']:
+                fe_fails.append(Failure('property', {'kind': 'transd-posterior', 'seed': seed, 'chain_length': n, 'predecessor': pred, 'own_widths': own},
+                                        'trans-dimensional chain: reported pDC %d but %d of the %d recorded entries are double-couples'
+                                        % (r['reported_pDC'], r['double_couple_entries'], r['entries']), key='transd-pdc'))
+            if abs(r['z']) > (6.0 if tier == 'quick' else 5.0) and abs(r['share'] - r['reference']) > 0.06:
+                fe_fails.append(Failure('property', {'kind': 'transd-posterior', 'seed': seed, 'chain_length': n, 'predecessor': pred, 'own_widths': own},
+                                        'trans-dimensional chain%s: share of double-couple entries %.3f +- %.3f against %.3f +- %.3f from '
+                                        'likelihood-weighted random sampling of the two models (%.1f combined standard errors)'
+                                        % (' run after another chain with %r' % pred if pred else '', r['share'], r['share_se'], r['reference'],
+                                           r['reference_se'], r['z']), key='transd-posterior'))
+        cov0['transd_posterior_runs'] = td
+        # pooled over the runs: a bias too small for one run (for instance a mis-normalised prior density of the full-tensor model)
+        pooled = sum(r['z'] for r in td) / math.sqrt(len(td))
+        cov0['transd_posterior_pooled_z'] = pooled
+        if len(td) >= 3 and abs(pooled) > 4.5:
+            fe_fails.append(Failure('property', {'kind': 'transd-posterior-pooled', 'runs': [(r['chain_length'], r['seed'], r['predecessor']) for r in td]},
+                                    'trans-dimensional chains: over %d runs the share of double-couple entries differs from likelihood-weighted random sampling of the '
+                                    'two models by %s standard errors, pooled %.1f (shares %s against %s)'
+                                    % (len(td), ['%.1f' % r['z'] for r in td], pooled, ['%.3f' % r['share'] for r in td], ['%.3f' % r['reference'] for r in td]),
+                                    key='transd-posterior-pooled'))
         return cov0, fe_fails + fails0
 
     def _extra_rest(self, rng, tier):
